@@ -9,6 +9,8 @@ INVARIANTS
   RoundTrip
   RegistryClosure
   PrefixAgnostic
+  EveryKey
+  DigestByMessage
   CipherValueLength
   Total
   RejectsMalformed
